@@ -185,7 +185,7 @@ def hooks_rule(repo):
     role = "captured activations are detached clones of the concatenated [examples; references] batch; the backward hook dispatches on the module type"
     fp, f, b = repo.func(D + "._fp_hook"), repo.func(D + "._f_hook"), repo.func(D + "._b_hook")
     t = [unparse(x.body[-1]) for x in (fp.node, f.node, b.node)]
-    ok = t == ["module.input = inputs[0].clone().detach()", "module.output = outputs.clone().detach()",
+    ok = t == ["module.input = torch.clone(inputs[0]).detach()", "module.output = torch.clone(outputs).detach()",
                "return module._NON_LINEAR_OPS[type(module)](module, grad_input, grad_output)"]
     if ok:
         out.append(holds("HOOKS", fp, role, "; ".join(t), fp.node))
